@@ -603,6 +603,10 @@ harness(void) {
   VP_ASSERT(t->meta.number == the_number, "C19 recorded under its number");
   VP_ASSERT(t->meta.file_size == fs_size[found], "C19 recorded with the real file size of the name that exists");
   VP_ASSERT(t->max_sequence == ref_max, "C19 max_sequence == max over the parsable keys");
+  if (found == 1 && fs_size[1] != 0)
+    VP_WITNESS("sst-spelling-scanned-with-its-size");
+  if (found == 0)
+    VP_WITNESS("ldb-spelling-scanned");
   if (nparsed == 0) {
     VP_ASSERT(t->meta.smallest.size == 0 && t->meta.largest.size == 0, "no parsable key: no bounds");
     VP_WITNESS("no-parsable-key");
@@ -616,10 +620,6 @@ harness(void) {
         for (b = 0; b < 9; b++)
           VP_ASSERT(t->meta.largest.data[b] == ent_key[k][b], "C19 largest == last parsable key the iterator yields");
     }
-    if (found == 1 && fs_size[1] != 0)
-      VP_WITNESS("sst-spelling-scanned-with-its-size");
-    if (found == 0)
-      VP_WITNESS("ldb-spelling-scanned");
 #if VP_E >= 2
     if (first > 0)
       VP_WITNESS("leading-unparsable-key-skipped");
